@@ -202,7 +202,7 @@ class VQESolver:
                                                      spin=self.molecule.active_spin)
                 self.qubit_hamiltonian += pen_qubit
                 if self.ansatz == BuiltInAnsatze.QCC:
-                    self.ansatz_options["qubit_ham"] = self.qubit_hamiltonian.to_qubitoperator()
+                    self.ansatz_options["qubit_ham"] = self.qubit_hamiltonian
 
             # Verification of system compatibility with UCC1 or UCC3 circuits.
             if self.ansatz in [BuiltInAnsatze.UCC1, BuiltInAnsatze.UCC3]:
